@@ -17,7 +17,8 @@ RULE = ("seeded random well-formed SII images (identity words; 0-8 "
         "process-data managers; TxPDO/RxPDO categories with 0-5 PDOs x 0-6 "
         "entries: bit entries, byte entries of 8/16/32/64 bits kept "
         "byte-aligned by gap entries) served by an EEPROM-interface model "
-        "with 4- or 8-byte reads and 0..k busy polls per access; the real "
+        "with 4- or 8-byte reads and 0..k busy polls per access (now and then "
+        "one access stays busy for 99..400 polls); the real "
         "Terminal.read_eeprom / parse_sync_managers / parse_pdos results are "
         "compared with the generating image; second leg: parse_pdos through "
         "SDO (0x1c12/0x1c13 and mapping objects served by the SDO server "
@@ -128,6 +129,11 @@ def gen_case(rng, with_mailbox):
                 sms=sms, tx=txe, rx=rxe, eight=rng.random() < 0.5,
                 busy=rng.choice([0, 0, 1, 2, 3]),
                 idle_busy=rng.choice([0, 0, 2]),
+                # "however long it reports busy": now and then one access
+                # keeps the interface busy for hundreds of polls
+                long_busy=[rng.randint(0, 40), rng.choice(
+                    [99, 100, 101, 150, 257, 400])]
+                if rng.random() < 0.08 else None,
                 with_mailbox=with_mailbox, busyseed=rng.getrandbits(16))
 
 
@@ -153,7 +159,15 @@ def check_case(case, res, prior=None):
     brng = random.Random(case["busyseed"])
     t = bus.SimTerminal("T", eeprom=img, station=33,
                         eeprom_8byte=case["eight"])
-    t.ee_busy_for = lambda: brng.randint(0, case["busy"])
+    naccess = [0]
+
+    def busy_for():
+        naccess[0] += 1
+        lb = case.get("long_busy")
+        if lb and naccess[0] - 1 == lb[0]:
+            return lb[1]
+        return brng.randint(0, case["busy"])
+    t.ee_busy_for = busy_for
     t.ee_idle_busy = case["idle_busy"]
     b = bus.Bus([t])
     srv = None
@@ -216,6 +230,10 @@ def check_case(case, res, prior=None):
     ncat = len(case["cats"])
     nent = len(txe or []) + len(rxe or [])
     res.case(case, nontrivial=ncat >= 2 or nent >= 1)
+    if case.get("long_busy"):
+        res.count("cases_with_a_long_busy_access")
+    if any(t >= 0x8000 for t, _ in case["cats"]):
+        res.count("cases_with_a_category_type_above_0x7fff")
     res.count("eeprom_accesses", sum(1 for e in t.events
                                      if e[0] == "eeprom_read_cmd"))
     res.count("images_8byte" if case["eight"] else "images_4byte")
